@@ -413,7 +413,13 @@ impl TypeEntryNewtype {
             name,
             rename,
             description,
-            default: None,
+            // Validated (and turned into `impl Default`) like the default of
+            // any other named type.
+            default: metadata
+                .as_ref()
+                .and_then(|m| m.default.as_ref())
+                .cloned()
+                .map(WrappedValue::new),
             type_id,
             constraints: TypeEntryNewtypeConstraints::None,
             schema: SchemaWrapper(schema),
